@@ -26,8 +26,8 @@ Theorem C10_events_prefix_when_failing : forall h e,
   is_prefix (map ref_of (snd (xval h e))) (refs e) /\
   (forall v, fst (xval h e) = ROk v -> map ref_of (snd (xval h e)) = refs e).
 Proof. exact events_prefix_of_postorder. Qed.
-Theorem C10_arguments_before_call : forall h name args vs evs v, xvals (xval h) args = (ROk vs, evs) ->
-  fst (call_function h name vs) = ROk v -> snd (xval h (XCall name args)) = evs ++ [EvFunction name vs].
+Theorem C10_arguments_before_call : forall h sp name args vs evs v, xvals (xval h) args = (ROk vs, evs) ->
+  fst (call_function h name vs) = ROk v -> snd (xval h (XCall sp name args)) = evs ++ [EvFunction name vs].
 Proof. exact call_arguments_in_order. Qed.
 
 (* a cell event: upper-cased label, zero-based row and column, absolute markers; the label is the label of the
